@@ -51,8 +51,8 @@ class Outcome:
         return d
 
 
-def check_sat(reg, solver, assertions, timeout, logic=None, want_model=True):
-    script, vterms, names = smt.build_script(reg, assertions, logic=logic, want_model=want_model, timeout_ms=int(timeout * 1000))
+def check_sat(reg, solver, assertions, timeout, logic=None, want_model=True, extra=()):
+    script, vterms, names = smt.build_script(reg, assertions, logic=logic, want_model=want_model, timeout_ms=int(timeout * 1000), extra_values=extra)
     st, model_text, secs = solver.check(script, names if want_model else (), timeout_s=timeout + 3)
     model = smt.parse_model(model_text, vterms, names) if st == "sat" and want_model else None
     if st == "error":
@@ -108,9 +108,21 @@ def prove_forms(reg, solver, name, forms, timeout, kind="goal", logic=None, quic
     raise ValueError("no formulation")
 
 
-def witness(reg, solver, name, assertions, timeout, logic=None):
-    """Vacuity / reachability twin: the assertions must be satisfiable."""
-    st, model, secs, _ = check_sat(reg, solver, assertions, timeout, logic=logic, want_model=True)
+def refuted_by_model(model, goal, tol=1e-6):
+    """True when the (false) goal evaluates to false under a solver model of the path condition: the model
+    is then a witness that the goal can fail, i.e. the twin query is `sat`."""
+    env = {}
+    for t, v in (model or {}).items():
+        env[t] = float(v) if not isinstance(v, bool) else v
+    try:
+        return not tm.evaluate(goal, env, {"root": lambda b, q: b ** (1.0 / q)})
+    except (KeyError, ZeroDivisionError, ValueError, OverflowError):
+        return False
+
+
+def witness(reg, solver, name, assertions, timeout, logic=None, extra=()):
+    """Vacuity / reachability twin: the assertions must be satisfiable.  `extra` terms get model values too."""
+    st, model, secs, _ = check_sat(reg, solver, assertions, timeout, logic=logic, want_model=True, extra=extra)
     return Outcome(name, "twin", st, secs, model=model, expect="sat")
 
 
@@ -317,6 +329,8 @@ class Report:
             "%s tier=%s paths=%d queries=%d unsat=%d twins_sat=%d syntactic=%d inconclusive=%d violations=%d known=%d wall=%.1fs solver=%.1fs"
             % (self.prop, TIER, c["paths"], c["queries"], c["unsat"], c["sat_expected"], c["syntactic"], len(self.inconclusive), len(self.violations), len(self.known), wall, c["solver_s"])
         )
+        slow = sorted(((j.get("job_s", 0), str(j.get("kernel", j.get("cfg")))) for j in self.jobs), reverse=True)[:6]
+        print("slowest jobs: " + "; ".join("%s %.0fs" % (k, t) for t, k in slow))
         if self.violations:
             return 1
         if self.inconclusive:
